@@ -180,8 +180,94 @@ def recursion_typestate(C, R, er):
                bad and bad[3], bad and bad[4]), {"cases": cases})
 
 
+def implicit_coercion_table(C, R):
+    """r6: the frontend decides, per @recurse, whether one implicit coercion (to which type) makes every level of the recursion
+    well-typed, or rejects the query. get_recurse_implicit_coercion is abstractly evaluated on one schema per documented case
+    (1 unrelated types, 2 destination is a subtype, 3 same type, 4a destination has the edge to itself, 4b destination's edge
+    leads to a wider type, 4c the edge's single origin leads to the destination / to a wider type, 4d ambiguous origin) and for
+    recursion depths 1, 2, 3, 5: the decision is the documented one and does not depend on the depth. Accepting 4b / 4c-wider at
+    any depth >= 2 makes the engine name a type (the coercion target) that vertices two hops away are not instances of."""
+    R.rule("r6", "get_recurse_implicit_coercion decision table: one case per documented situation x recursion depth; decision independent of depth")
+    f = C.fn("trustfall_core::frontend::get_recurse_implicit_coercion")
+    if f is None:
+        R.fail("r6", "anchor", "-", "get_recurse_implicit_coercion not found")
+        return
+    PT = "async_graphql_parser::types::"
+    FO = "trustfall_core::schema::FieldOrigin"
+
+    def pos(x):
+        return A.Struct("async_graphql_parser::pos::Positioned", {"node": x})
+
+    def fdef(edge, to):
+        return A.Struct(PT + "service::FieldDefinition", {"name": pos(edge), "ty": pos(A.Struct(PT + "Type", {"_named": to}))})
+    I = S.intrinsics()
+    I.update(S.string_intrinsics())
+    I["trustfall_core::frontend::util::get_underlying_named_type"] = lambda ip, n, a: A.deref(a[0]).fields["_named"]
+    rel = {}
+    I["trustfall_core::schema::Schema::is_named_type_subtype"] = lambda ip, n, a: \
+        A.deref(a[1]) == A.deref(a[2]) or (A.deref(a[2]), A.deref(a[1])) in rel["sub"]
+
+    def schema(sub, fields, origins):
+        rel["sub"] = set(sub)                      # (subtype, supertype), strict
+        return A.Struct("trustfall_core::schema::Schema", {
+            "fields": S.MapV([(A.Tuple([t, e]), fdef(e, to)) for (t, e), to in fields.items()]),
+            "field_origins": S.MapV([(A.Tuple([t, e]), o) for (t, e), o in origins.items()])})
+    single = lambda x: A.Enum(FO, "SingleAncestor", [x])
+    multi = lambda *xs: A.Enum(FO, "MultipleAncestors", [S.SetV(list(xs))])
+    # name -> (subtype pairs, fields, origins, source type, S.e destination, expected)
+    up = [("S", "X"), ("X", "D"), ("S", "D"), ("D", "E"), ("X", "E"), ("S", "E"), ("S", "Y"), ("Y", "D"), ("Y", "E")]
+    cases = {
+        "1 unrelated": ([], {("S", "e"): "B"}, {("S", "e"): single("S")}, "S", "B", "Err:RecursingNonRecursableEdge"),
+        "2 destination is a subtype": ([("T", "S")], {("S", "e"): "T"}, {("S", "e"): single("S")}, "S", "T", "Err:RecursionToSubtype"),
+        "3 same type": ([], {("S", "e"): "S"}, {("S", "e"): single("S")}, "S", "S", "Ok:None"),
+        "4a destination has the edge, to itself": (up, {("S", "e"): "D", ("D", "e"): "D"}, {("S", "e"): single("D")}, "S", "D", "Ok:None"),
+        "4b destination's edge leads to a wider type": (up, {("S", "e"): "D", ("D", "e"): "E"}, {("S", "e"): single("D")}, "S", "D",
+                                                        "Err:EdgeRecursionNeedingMultipleCoercions"),
+        "4c single origin, its edge leads to the destination": (up, {("S", "e"): "D", ("X", "e"): "D"}, {("S", "e"): single("X")}, "S", "D", "Ok:X"),
+        "4c single origin, its edge leads to a wider type": (up, {("S", "e"): "D", ("X", "e"): "E"}, {("S", "e"): single("X")}, "S", "D",
+                                                             "Err:EdgeRecursionNeedingMultipleCoercions"),
+        "4d ambiguous origin": (up, {("S", "e"): "D", ("X", "e"): "D", ("Y", "e"): "D"}, {("S", "e"): multi("X", "Y")}, "S", "D",
+                                "Err:AmbiguousOriginEdgeRecursion"),
+    }
+    n = 0
+    bad = None
+    try:
+        for name, (sub, fields, origins, src, dst, want) in cases.items():
+            for depth in (1, 2, 3, 5):
+                sch = schema(sub, fields, origins)
+                vertex = A.Struct(IR + "IRVertex", {"vid": 1, "type_name": src, "coerced_from_type": S.none()})
+                rd = A.Struct("trustfall_core::graphql_query::directives::RecurseDirective", {"depth": depth})
+                res = A.deref(A.Interp(C, I).call_by_type(f, [("Schema", sch), ("IRVertex", vertex), ("FieldDefinition", fdef("e", dst)),
+                                                              ("RecurseDirective", rd)]))
+                if res.variant == "Ok":
+                    o = A.deref(res.fields[0])
+                    got = "Ok:None" if o.variant == "None" else "Ok:%s" % A.deref(o.fields[0])
+                else:
+                    got = "Err:%s" % A.deref(res.fields[0]).variant
+                n += 1
+                allowed = {want}
+                if depth == 1 and want == "Err:EdgeRecursionNeedingMultipleCoercions":
+                    # a depth-1 recursion never expands from the destination type, so accepting it (with the first coercion) is
+                    # harmless: only depth >= 2 must be rejected
+                    allowed |= {"Ok:None"} if name.startswith("4b") else {"Ok:X"}
+                if got not in allowed and bad is None:
+                    bad = (name, depth, got, want)
+    except A.Unsupported as e:
+        R.fail("r6", "unanalysable", C.loc(f["sp"]), "cannot evaluate get_recurse_implicit_coercion abstractly: %s (fail closed)" % e)
+        return
+    except A.PanicReached as e:
+        R.fail("r6", "panic", C.loc(f["sp"]), "get_recurse_implicit_coercion panics on a documented case: %s" % e.what)
+        return
+    R.floor("r6", "case x depth evaluations", n, 32)
+    R.check(bad is None, "r6", "implicit-coercion-table", C.loc(f["sp"]),
+            "case `%s` with @recurse(depth: %s): decided %s, documented %s - a recursion that needs a second, different coercion at a deeper "
+            "level is accepted, and the engine then names the coercion target for vertices that are not instances of it"
+            % (bad or ("", "", "", "")), {"cases": n})
+
+
 def run(ctx, R):
     C = ctx.core
+    implicit_coercion_table(C, R)
     R.rule("r1", "type-name vid = activation vid = ResolveInfo vid at every adapter call site")
     R.rule("r2", "property / edge arguments come from the same IR node as the vid; internal calls pass projections of one edge/fold")
     R.rule("r3", "coercion arguments: (coerced_from_type, type_name) of one vertex, in order; re-coercion (endpoint type, coerce_to)")
